@@ -300,6 +300,18 @@ Section Assign.
     end.
 End Assign.
 
+(* the value goes to a temporary first: several targets, or one attribute/subscript target (value before the
+   target's object and index) *)
+Definition shared_value (targets : list expr) : bool :=
+  match targets with
+  | [] => false
+  | t :: r =>
+      match r with
+      | [] => match t with Attribute _ _ | Subscript _ _ => true | _ => false end
+      | _ :: _ => true
+      end
+  end.
+
 (* ---------- augmented assignment ---------- *)
 Definition aug_expr (target : expr) (op : binop) (value fallback : expr) : expr :=
   IfExp (call (Name "hasattr") [target; cstr (aug_op_name op)])
@@ -317,16 +329,20 @@ Definition lower_augassign (n : nsp) (p : path) (target : expr) (op : binop) (va
       ret [IfExp (call (Name "hasattr") [t; cstr (aug_op_name op)]) st fb]
   | Subscript par s =>
       let tmps := ol "sllice" (path_str p) in
+      let tmpo := ol "augobj" (path_str p) in
       let! par' := tr n par in
       let! s' := tr n (convert_index s) in
-      ret [NamedExpr tmps s';
-           NamedExpr tmp (Subscript par' (Name tmps));
-           call (Attribute par' "__setitem__")
+      ret [NamedExpr tmpo par';
+           NamedExpr tmps s';
+           NamedExpr tmp (Subscript (Name tmpo) (Name tmps));
+           call (Attribute (Name tmpo) "__setitem__")
                 [Name tmps; aug_expr (Name tmp) op v (NamedExpr tmp (BinOp (Name tmp) op v))]]
   | Attribute par a =>
+      let tmpo := ol "augobj" (path_str p) in
       let! par' := tr n par in
-      ret [NamedExpr tmp (Attribute par' a);
-           call (Name "setattr") [par'; cstr a; aug_expr (Name tmp) op v (NamedExpr tmp (BinOp (Name tmp) op v))]]
+      ret [NamedExpr tmpo par';
+           NamedExpr tmp (Attribute (Name tmpo) a);
+           call (Name "setattr") [Name tmpo; cstr a; aug_expr (Name tmp) op v (NamedExpr tmp (BinOp (Name tmp) op v))]]
   | _ => fail ENotImpl
   end.
 
@@ -483,7 +499,7 @@ Section Stmts.
         end
     | SAssign targets value =>
         let! v0 := tr n value in
-        let shared := match targets with _ :: _ :: _ => true | _ => false end in
+        let shared := shared_value targets in
         let tmp := ol "assign" (path_str p) in
         let v := if shared then Name tmp else v0 in
         let! stores :=
